@@ -441,3 +441,121 @@ func frameReadonlyObligations(l *loaded, run *PropRun, methodNames map[string]bo
 		}
 	}
 }
+
+// onceObligations (C17, C16): a package-level variable that is written by a function run under sync.Once.Do (lazy
+// initialisation) must be read only by that initialiser or at points dominated by the Do call of the same Once in the
+// same function: any other read has no happens-before edge with the initialising write.
+func onceObligations(l *loaded, run *PropRun) {
+	t0 := time.Now()
+	// initialisers: functions passed to (*sync.Once).Do, with the Once global they are run under
+	type doCall struct {
+		fn    *ssa.Function // caller
+		instr *ssa.Call
+		once  *ssa.Global
+		init  *ssa.Function
+	}
+	var dos []doCall
+	var keys []string
+	for k := range l.funcs {
+		keys = append(keys, k)
+	}
+	sort.Strings(keys)
+	for _, k := range keys {
+		fn := l.funcs[k]
+		if fn.Pkg != l.spkg {
+			continue
+		}
+		for _, b := range fn.Blocks {
+			for _, ins := range b.Instrs {
+				c, ok := ins.(*ssa.Call)
+				if !ok {
+					continue
+				}
+				callee := c.Call.StaticCallee()
+				if callee == nil || callee.String() != "(*sync.Once).Do" || len(c.Call.Args) != 2 {
+					continue
+				}
+				g, _ := c.Call.Args[0].(*ssa.Global)
+				var initFn *ssa.Function
+				switch f := c.Call.Args[1].(type) {
+				case *ssa.Function:
+					initFn = f
+				case *ssa.MakeClosure:
+					initFn, _ = f.Fn.(*ssa.Function)
+				}
+				if g != nil && initFn != nil {
+					dos = append(dos, doCall{fn, c, g, initFn})
+				}
+			}
+		}
+	}
+	// globals written by an initialiser
+	guardedBy := map[*ssa.Global]*ssa.Global{} // variable -> its Once
+	initOf := map[*ssa.Global]*ssa.Function{}
+	for _, d := range dos {
+		for _, b := range d.init.Blocks {
+			for _, ins := range b.Instrs {
+				if st, ok := ins.(*ssa.Store); ok {
+					if g, ok := st.Addr.(*ssa.Global); ok && g.Pkg == l.spkg {
+						guardedBy[g] = d.once
+						initOf[g] = d.init
+					}
+				}
+			}
+		}
+	}
+	var problems []string
+	for _, k := range keys {
+		fn := l.funcs[k]
+		if fn.Pkg != l.spkg || len(fn.Blocks) == 0 {
+			continue
+		}
+		for _, b := range fn.Blocks {
+			for i, ins := range b.Instrs {
+				u, ok := ins.(*ssa.UnOp)
+				if !ok || u.Op != token.MUL {
+					continue
+				}
+				g, ok := u.X.(*ssa.Global)
+				if !ok || guardedBy[g] == nil || fn == initOf[g] {
+					continue
+				}
+				// dominated by a Do call on the variable's Once in this function?
+				okRead := false
+				for _, d := range dos {
+					if d.fn != fn || d.once != guardedBy[g] {
+						continue
+					}
+					db := d.instr.Block()
+					if db == b {
+						for j := 0; j < i; j++ {
+							if b.Instrs[j] == ssa.Instruction(d.instr) {
+								okRead = true
+							}
+						}
+					} else if db.Dominates(b) {
+						okRead = true
+					}
+				}
+				if !okRead {
+					p := l.prog.Fset.Position(u.Pos())
+					f := p.Filename
+					if j := strings.LastIndex(f, "/"); j >= 0 {
+						f = f[j+1:]
+					}
+					problems = append(problems, fmt.Sprintf("read of %s in %s (%s:%d) is not preceded by %s.Do on every path", g.Name(), fnKey(fn), f, p.Line, guardedBy[g].Name()))
+				}
+			}
+		}
+	}
+	var names []string
+	for g := range guardedBy {
+		names = append(names, g.Name())
+	}
+	sort.Strings(names)
+	frameObl(run, "once/lazily-initialised-globals", "package-level variables written under sync.Once ("+strings.Join(names, ", ")+") are read only by their initialiser or after the Do call of their Once in the same function", problems, time.Since(t0).Seconds())
+	if len(guardedBy) == 0 {
+		run.Extra[len(run.Extra)-1].Status = "failed"
+		run.Extra[len(run.Extra)-1].Model = "no package-level variable is initialised under sync.Once any more: the obligation no longer binds"
+	}
+}
